@@ -202,6 +202,21 @@ func runC08(rc *RunCtx, i int) {
 	}
 	time.Sleep(time.Duration(r.Range(0, 3000)) * time.Microsecond)
 
+	// Flush callers that are inside Flush (waiting for their turn or for their answer) when Stop
+	// and its deadline arrive: a Flush call is a waiter that can always receive, so it must come
+	// back, with nil or an error, never hang
+	var flushReturned []*atomic.Bool
+	for k, n := 0, r.Range(0, 2); k < n; k++ {
+		fr := &atomic.Bool{}
+		flushReturned = append(flushReturned, fr)
+		go func() {
+			e.Flush(context.Background())
+			fr.Store(true)
+		}()
+	}
+	if len(flushReturned) > 0 {
+		time.Sleep(time.Duration(r.Range(0, 1500)) * time.Microsecond)
+	}
 	// Stop
 	var ctx context.Context
 	cancel := func() {}
@@ -375,6 +390,24 @@ func runC08(rc *RunCtx, i int) {
 		}
 	}
 	pwg.Wait()
+	for t := 0; t < 400; t++ {
+		pending := 0
+		for _, fr := range flushReturned {
+			if !fr.Load() {
+				pending++
+			}
+		}
+		if pending == 0 {
+			break
+		}
+		if t == 399 {
+			rc.Violate(i, "flush-caller-never-returned", "", fmt.Sprintf("%d Flush call(s) that were in progress when Stop ran have not returned 10 s after Stop returned (err=%v), the stores were unwedged and the workers exited", pending, stopErr), map[string]any{"history": desc, "dump": core.Trunc(strings.Join(engineStacks(allStacks(), ").Flush"), "\n"), 4000)})
+			led.close()
+			return
+		}
+		time.Sleep(25 * time.Millisecond)
+	}
+	rc.Res.Count("flush_callers_across_stop", int64(len(flushReturned)))
 	ops := led.snapshot()
 	for _, o := range ops {
 		o.collect(clock)
